@@ -226,6 +226,60 @@ private theorem spread_targets (anchor : String) (pcv : Vals) : ∀ (rest : List
         · rfl
         · split <;> rfl
 
+private theorem spread_calls_own (anchor : String) (pcv : Vals) (orig : List LookupItem) :
+    ∀ (rest : List LookupItem) (k : Nat) (st : PState),
+    (∀ j l, rest[j]? = some l → orig[k + j]? = some l) →
+    ∀ c ∈ (spread anchor pcv k rest st).calls, c ∈ st.calls ∨ ∃ l, orig[c.1]? = some l ∧ c.2 = l.cached := by
+  intro rest
+  induction rest with
+  | nil => intro k st _ c hc; exact Or.inl hc
+  | cons l0 rest ih =>
+    intro k st horig c hc
+    simp only [spread] at hc
+    have hrest : ∀ j l, rest[j]? = some l → orig[k + 1 + j]? = some l := by
+      intro j l hj
+      have := horig (j + 1) l (by simpa using hj)
+      rwa [show k + (j + 1) = k + 1 + j by omega] at this
+    rcases ih (k + 1) (spreadStep anchor pcv k l0 st) hrest c hc with h | h
+    · -- a call made by the step for `l0`
+      unfold spreadStep at h
+      split at h
+      · exact Or.inl h
+      · split at h
+        · exact Or.inl h
+        · split at h
+          · exact Or.inl h
+          · split at h
+            · simp only [List.mem_append, List.mem_singleton] at h
+              rcases h with h | h
+              · exact Or.inl h
+              · right
+                subst h
+                exact ⟨l0, by simpa using horig 0 l0 (by simp), rfl⟩
+            · exact Or.inl h
+    · exact Or.inr h
+
+/-- **C15.cacheTarget_reparses_with_own_counters** — every `parse_again` call made by
+`cache_target_page_counters` hands the box the page counters cached **for that box** (those of its own page:
+what its `counter(page)` / `counter(pages)` print), never those of the target. -/
+theorem cacheTarget_reparses_with_own_counters (st : PState) (anchor : String) (pcv : Vals) (i : Nat) :
+    ∀ c ∈ (cacheTarget st anchor pcv i).calls, c ∈ st.calls ∨ ∃ l, st.lookups[c.1]? = some l ∧ c.2 = l.cached := by
+  intro c hc
+  unfold cacheTarget at hc
+  split at hc
+  · exact Or.inl hc
+  · split at hc
+    · exact Or.inl hc
+    · split at hc
+      · exact Or.inl hc
+      · simp only at hc
+        split at hc
+        · rcases spread_calls_own anchor pcv st.lookups st.lookups 0 _ (fun j l hj => by simpa using hj) c hc
+            with h | h
+          · exact Or.inl h
+          · exact Or.inr h
+        · exact Or.inl hc
+
 /-- The target item afterwards: the page it was (first) met on and the page counters of that page. -/
 theorem cacheTarget_records (st : PState) (anchor : String) (pcv : Vals) (pageIndex : Nat) (item : TargetItem)
     (hc : st.collecting = false) (ht : tget st.targets anchor = some item) (hu : item.upToDate = true) :
@@ -487,6 +541,8 @@ example : flagged (cacheTarget exState "t" [("page", [2]), ("pages", [0])] 1) 0 
   · unfold flagged; decide
   · unfold isPending; decide
 example : (step12 [("page", [3])] true ⟨true, ["pages"], [], none, true, []⟩).2 = (true, true) := by decide
+-- the forward reference of exState is re-parsed with its own (empty) page counters, not with the target's [2]
+example : (cacheTarget exState "t" [("page", [2]), ("pages", [0])] 1).calls = [(0, [])] := by decide
 -- a forward `pages` reference (target not met yet) passes step 3; a backward one marks the target's page
 example : step3Targets [("t", ["pages"])] exState = .ok exState := by rfl
 example : (step3Targets [("t", ["pages"])]
